@@ -169,7 +169,7 @@ theorem scenario_text_step (W : World) (s : State) (r : Request) :
       · rfl
     · simp only [reduceCtorEq, false_and, ↓reduceIte]
       split
-      · exact (putActive_texts W s r).1
+      · exact (putActive_texts _ W s r).1
       · rename_i hm; exact absurd hm hg
       · rfl
     · simp only [reduceCtorEq, false_and, ↓reduceIte]
@@ -217,7 +217,246 @@ theorem solutions_text_verbatim (W : World) (s : State) (r : Request)
   have hs' : res.2.scenText.isNone = false := by rw [hscen]; exact hs
   simp [step, classifyPath, getReq, getSolutions, hsol, hs', textBody, Quirks.spec]
 
+/-- One step changes the solutions text only by a POST /solutions answered 200, and then to the posted bytes
+(POST /scenario, PATCH, the PUTs, failed requests and reads leave it alone). -/
+theorem solutions_text_step (W : World) (s : State) (r : Request) :
+    (step Quirks.spec W s r).2.solText =
+      if classifyPath r.path = .solutions ∧ r.method = .post ∧ (step Quirks.spec W s r).1.status = 200
+      then some r.text else s.solText := by
+  by_cases hne : (step Quirks.spec W s r).1.status ≠ 200
+  · rw [error_leaves_state W s r hne]; simp [hne]
+  have h200 : (step Quirks.spec W s r).1.status = 200 := Decidable.of_not_not hne
+  by_cases hg : r.method = .get
+  · rw [step_get _ W s r hg]; simp [hg]
+  by_cases hsol : classifyPath r.path = .solutions ∧ r.method = .post
+  · have hstep : step Quirks.spec W s r = postSolutions Quirks.spec W s r := by simp [step, hsol.1, hsol.2]
+    simp only [hsol, h200, and_self, ↓reduceIte]
+    rw [hstep] at h200 ⊢
+    exact postSolutions_solText_ok W s r h200
+  · have hc : ¬ (classifyPath r.path = .solutions ∧ r.method = .post ∧ (step Quirks.spec W s r).1.status = 200) :=
+      fun h => hsol ⟨h.1, h.2.1⟩
+    simp only [hc, ↓reduceIte]
+    unfold step
+    split
+    · rfl
+    · split <;> rfl
+    · split
+      · exact postScenario_solText W s r
+      · simp only [getScenario]; split <;> rfl
+      · rfl
+    · rename_i hp
+      split
+      · rename_i hm; exact absurd ⟨hp, hm⟩ hsol
+      · rename_i hm; exact absurd hm hg
+      · rfl
+    · split
+      · rename_i hm; exact absurd hm hg
+      · rfl
+    · split
+      · rename_i hm; exact absurd hm hg
+      · exact (patchModel_texts W s r).2
+      · rfl
+    · split
+      · exact (putActive_texts _ W s r).2
+      · rename_i hm; exact absurd hm hg
+      · rfl
+    · split
+      · rename_i hm; exact absurd hm hg
+      · rfl
+    · split
+      · rename_i hm; exact absurd hm hg
+      · exact (putSub_texts W s r _).2
+      · rfl
+
+/-- the solutions text a sequence leaves behind: the text of its last POST /solutions answered 200 -/
+def lastSolutionsText (W : World) : State → List Request → Option Bytes
+  | s, [] => s.solText
+  | s, r :: rs => lastSolutionsText W (step Quirks.spec W s r).2 rs
+
+/-- After any request sequence from the empty engine GET /solutions returns exactly the bytes of the last
+POST /solutions that was answered 200 (404 if there was none), unaltered — whatever was posted to /scenario, patched or
+PUT in between. -/
+theorem solutions_text_is_last_posted (W : World) (rs : List Request) :
+    (step Quirks.spec W (exec Quirks.spec W State.init rs) (getReq "/api/v1/solutions")).1 =
+      match lastSolutionsText W State.init rs with
+      | none => err 404
+      | some t => ok (.text .csv t false) := by
+  have hinv := reachable_inv W rs
+  have hlast : ∀ (s : State) (rs : List Request), lastSolutionsText W s rs = (exec Quirks.spec W s rs).solText := by
+    intro s rs
+    induction rs generalizing s with
+    | nil => rfl
+    | cons r rs ih => simpa [exec, run, lastSolutionsText] using ih (step Quirks.spec W s r).2
+  rw [hlast]
+  generalize exec Quirks.spec W State.init rs = s at hinv
+  cases hsol : s.solText with
+  | none =>
+    simp only [step, classifyPath, getReq, getSolutions, hsol]
+    simp
+  | some t =>
+    have h1 : s.table.isSome = true := by rw [← hinv.sol_iff, hsol]; rfl
+    have h2 : s.scenText.isSome = true := by rw [hinv.text_iff]; exact hinv.tbl_live h1
+    have h3 : s.scenText.isNone = false := by
+      cases hsc : s.scenText with
+      | none => rw [hsc] at h2; cases h2
+      | some _ => rfl
+    simp [step, classifyPath, getReq, getSolutions, hsol, h3, textBody, Quirks.spec]
+
 /-! ## active actions are those last set -/
+
+
+/-- the action set of the live model after a request, by request kind: a request that is not answered 200 leaves it;
+an accepted POST /scenario resets it to "nothing active" over the new scenario's actions; an accepted PATCH sets the
+last decoded `Encoding` entry (none: unchanged); an accepted table PUT applies the table's cells; an accepted
+subcatchment PUT applies its entries to that planning unit; everything else — POST /solutions, every GET, every other
+method — leaves it. -/
+def nextActive (W : World) (s : State) (r : Request) : Option ActiveSet :=
+  if (step Quirks.spec W s r).1.status ≠ 200 then s.live.map (·.active)
+  else
+    match classifyPath r.path with
+    | .scenario =>
+      match r.method, r.facts with
+      | .post, .scen (.ok _ u) => some (allInactive u)
+      | _, _ => s.live.map (·.active)
+    | .model =>
+      match r.method, r.facts, s.live with
+      | .patch, .patch (some entries), some m => some (patchActive m entries)
+      | _, _, _ => s.live.map (·.active)
+    | .active =>
+      match r.method, r.facts, s.live with
+      | .put, .csv c, some m =>
+        match classifyTable c with
+        | .ok types rows => some (applyTable m.u types rows m.active)
+        | _ => some m.active
+      | _, _, _ => s.live.map (·.active)
+    | .sub id =>
+      match r.method, r.facts, s.live with
+      | .put, .sub (some entries), some m =>
+        match atoi? id with
+        | some pu => some (applySub m.u pu entries m.active)
+        | none => some m.active
+      | _, _, _ => s.live.map (·.active)
+    | _ => s.live.map (·.active)
+
+/-- **Active actions are those last set, one step.**  Whatever the state and the request, the live model's action set
+after the request is `nextActive`: in particular POST /solutions, a PATCH without `Encoding`, failed requests and reads
+leave it alone, and POST /scenario resets it. -/
+theorem active_step (W : World) (s : State) (r : Request) :
+    (step Quirks.spec W s r).2.live.map (·.active) = nextActive W s r := by
+  unfold nextActive
+  by_cases hne : (step Quirks.spec W s r).1.status ≠ 200
+  · rw [error_leaves_state W s r hne]; simp [hne]
+  have h200 : (step Quirks.spec W s r).1.status = 200 := Decidable.of_not_not hne
+  simp only [hne, ↓reduceIte]
+  clear hne
+  by_cases hg : r.method = .get
+  · rw [step_get _ W s r hg]
+    rw [hg]
+    cases classifyPath r.path <;> rfl
+  revert h200
+  cases hp : classifyPath r.path with
+  | root => simp only [step, hp]; intro _; split <;> rfl
+  | other => simp only [step, hp]; intro _; trivial
+  | scenario =>
+    simp only [step, hp]
+    split
+    · rename_i hm
+      intro h200
+      obtain ⟨name, u, hf, ha⟩ := postScenario_active_ok W s r h200
+      rw [ha, hf, hm]
+    · rename_i hm; exact absurd hm hg
+    · rename_i hm1 hm2
+      intro _
+      split
+      · rename_i hm _; exact absurd hm hm1
+      · rfl
+  | solutions =>
+    simp only [step, hp]
+    intro _
+    split
+    · exact postSolutions_active W s r
+    · rename_i hm; exact absurd hm hg
+    · rfl
+  | solution label =>
+    simp only [step, hp]
+    intro _
+    trivial
+  | model =>
+    simp only [step, hp]
+    split
+    · rename_i hm; exact absurd hm hg
+    · rename_i hm
+      intro h200
+      obtain ⟨m, entries, hl, hf, ha⟩ := patchModel_active_ok W s r h200
+      rw [ha, hf, hl, hm]
+    · rename_i hm1 hm2
+      intro _
+      split
+      · rename_i hm _ _; exact absurd hm hm2
+      · rfl
+  | active =>
+    simp only [step, hp]
+    split
+    · rename_i hm
+      intro h200
+      obtain ⟨m, c, types, rows, hl, hf, hcl, ha⟩ := putActive_active_ok W s r h200
+      rw [ha, hf, hl, hm]
+      simp only [hcl]
+    · rename_i hm; exact absurd hm hg
+    · rename_i hm1 hm2
+      intro _
+      split
+      · rename_i hm _ _; exact absurd hm hm1
+      · rfl
+  | applicable =>
+    simp only [step, hp]
+    intro _
+    trivial
+  | sub id =>
+    simp only [step, hp]
+    split
+    · rename_i hm; exact absurd hm hg
+    · rename_i hm
+      intro h200
+      obtain ⟨m, pu, entries, hl, hat, hf, _, _, ha⟩ := putSub_active_ok W s r _ h200
+      rw [ha, hf, hl, hm]
+      simp only [hat]
+    · rename_i hm1 hm2
+      intro _
+      split
+      · rename_i hm _ _; exact absurd hm hm2
+      · rfl
+
+/-- the action set a sequence leaves behind: `nextActive` request by request -/
+def lastActive (W : World) : State → List Request → Option ActiveSet
+  | s, [] => s.live.map (·.active)
+  | s, r :: rs => lastActive W (step Quirks.spec W s r).2 rs
+
+/-- **Active actions are those last set, any sequence.**  After any request sequence GET /model/actions/active shows
+exactly the set the sequence's successful writes leave behind (`lastActive`: `nextActive` folded over the requests),
+404 while no scenario has been accepted. -/
+theorem active_is_last_set (W : World) (rs : List Request) :
+    (step Quirks.spec W (exec Quirks.spec W State.init rs) (getReq "/api/v1/model/actions/active")).1 =
+      match (exec Quirks.spec W State.init rs).live, lastActive W State.init rs with
+      | some m, some set => ok (.active m.u set)
+      | _, _ => err 404 := by
+  have hlast : ∀ (s : State) (rs : List Request), lastActive W s rs = (exec Quirks.spec W s rs).live.map (·.active) := by
+    intro s rs
+    induction rs generalizing s with
+    | nil => rfl
+    | cons r rs ih => simpa [exec, run, lastActive] using ih (step Quirks.spec W s r).2
+  rw [hlast]
+  have hsnap := (reachable_inv W rs).snap_eq
+  generalize exec Quirks.spec W State.init rs = s at hsnap
+  cases hl : s.live with
+  | none => simp [step, classifyPath, getReq, getActive, hsnap, hl]
+  | some m => simp [step, classifyPath, getReq, getActive, hsnap, hl]
+
+/-- the step equation of `lastActive` in terms of `nextActive` -/
+theorem lastActive_cons (W : World) (s : State) (r : Request) (rs : List Request) :
+    lastActive W s (r :: rs) = lastActive W (step Quirks.spec W s r).2 rs ∧
+    (step Quirks.spec W s r).2.live.map (·.active) = nextActive W s r :=
+  ⟨rfl, active_step W s r⟩
 
 def patchReq (entries : List PatchEntry) : Request :=
   { method := .patch, path := "/api/v1/model", ctype := jsonMime, text := [], facts := .patch (some entries) }
@@ -236,15 +475,17 @@ theorem patch_sets_last_encoding (W : World) (s : State) (m : Mdl) (entries : Li
     cases sets with
     | nil => simp at hlast
     | cons _ _ => rfl
+  have hnd := (hinv.shows m hlive).1.1
   have hf := foldl_derive W s.table sets
-    { m with attrs := join m.attrs (List.map (fun (e : PatchEntry) => ({ name := e.name, val := e.val } : Attr)) entries) } S hlast
+    { m with attrs := join Quirks.spec m.attrs (List.map (fun (e : PatchEntry) => ({ name := e.name, val := e.val } : Attr)) entries) } S
+    (join_spec _ hnd).1 hlast
   obtain ⟨_, hact, hu, hid⟩ := hf
   have hstep : step Quirks.spec W s (patchReq entries) =
       (ok .success, { s with
-        live := some (sets.foldl (fun acc set => derive W s.table { acc with active := set })
-          { m with attrs := join m.attrs (List.map (fun (e : PatchEntry) => ({ name := e.name, val := e.val } : Attr)) entries) }),
-        snap := some (sets.foldl (fun acc set => derive W s.table { acc with active := set })
-          { m with attrs := join m.attrs (List.map (fun (e : PatchEntry) => ({ name := e.name, val := e.val } : Attr)) entries) }) }) := by
+        live := some (sets.foldl (fun acc set => derive Quirks.spec W s.table { acc with active := set })
+          { m with attrs := join Quirks.spec m.attrs (List.map (fun (e : PatchEntry) => ({ name := e.name, val := e.val } : Attr)) entries) }),
+        snap := some (sets.foldl (fun acc set => derive Quirks.spec W s.table { acc with active := set })
+          { m with attrs := join Quirks.spec m.attrs (List.map (fun (e : PatchEntry) => ({ name := e.name, val := e.val } : Attr)) entries) }) }) := by
     simp [step, classifyPath, patchReq, patchModel, hsnap, hlive, Quirks.spec, jsonMime, hdec, hne]
   rw [hstep]
   exact ⟨rfl, _, rfl, hact, hu, hid⟩
@@ -307,9 +548,11 @@ theorem setWhere_get (u : Universe) (set : ActiveSet) (pu : Nat) (ty : String) (
 /-- Two engines that have been through ANY request histories (whole-table uploads, per-subcatchment updates,
 encoding patches, failed requests, anything) and whose served models belong to the same scenario and have the
 same active set answer identically on /model/actions/active, /model/actions/applicable and every
-/model/subcatchment/<id>; their /model documents carry the same scenario, id and action set — so the same
-decision-variable representation `repr` for every valuation `repr` (C01) — and both contain the same
-`Encoding` and `ValidAgainstScenario` entries. -/
+/model/subcatchment/<id>; their /model documents carry the same scenario and action set and both contain the same
+`Encoding` and `ValidAgainstScenario` entries.  (Conjunct 4 — "the same decision-variable representation `repr u set` for
+every valuation `repr`" — is trivial from the hypotheses: it records that the representation enters the spec only through
+scenario and set, which is property C01's content.  The statement about the WHOLE /model document, id and attribute
+list included, is `route_independent_model` below.) -/
 theorem route_independent (W : World) (rs₁ rs₂ : List Request) (m₁ m₂ : Mdl)
     (h₁ : (exec Quirks.spec W State.init rs₁).live = some m₁)
     (h₂ : (exec Quirks.spec W State.init rs₂).live = some m₂)
@@ -330,8 +573,8 @@ theorem route_independent (W : World) (rs₁ rs₂ : List Request) (m₁ m₂ : 
   have i₂ := reachable_inv W rs₂
   have sn₁ : s₁.snap = some m₁ := by rw [i₁.snap_eq]; exact h₁
   have sn₂ : s₂.snap = some m₂ := by rw [i₂.snap_eq]; exact h₂
-  have sh₁ := (i₁.shows m₁ h₁).1
-  have sh₂ := (i₂.shows m₂ h₂).1
+  have sh₁ := shows_mem (i₁.shows m₁ h₁).1
+  have sh₂ := shows_mem (i₂.shows m₂ h₂).1
   refine ⟨?_, ?_, ?_, ?_, ?_, ?_⟩
   · simp [step, classifyPath, getReq, getActive, sn₁, sn₂, hu, hact]
   · simp [step, classifyPath, getReq, getApplicable, sn₁, sn₂, hu]
@@ -345,6 +588,56 @@ theorem route_independent (W : World) (rs₁ rs₂ : List Request) (m₁ m₂ : 
   · exact ⟨_, sh₁.1, by rw [hact]; exact sh₂.1, rfl⟩
   · exact ⟨_, sh₁.2.1, by rw [hu, hact]; exact sh₂.2.1, rfl⟩
 
+
+/-- **The model representation is a function of what was written.**  In ANY two states of the demanded behaviour
+(`Inv`: in particular any two reachable ones) whose live models have the same scenario, id and action set, with the same
+solution table loaded and the same posted attributes (the entries whose names `deriveExtraModelAttributes` does not
+manage, as multisets), GET /model serves the same document up to the order of the attribute entries (`SameRepr`): the
+managed entries — exactly ONE `Encoding`, ONE `ValidAgainstScenario`, ONE `ParetoFrontMember` when a table is loaded,
+`ValidationErrors` exactly when the set is invalid — are determined by the action set, the scenario and the table. -/
+theorem model_representation_determined (W : World) (s₁ s₂ : State) (m₁ m₂ : Mdl)
+    (i₁ : Inv W s₁) (i₂ : Inv W s₂) (h₁ : s₁.live = some m₁) (h₂ : s₂.live = some m₂)
+    (hu : m₁.u = m₂.u) (hid : m₁.id = m₂.id) (hact : m₁.active = m₂.active) (htbl : s₁.table = s₂.table)
+    (huser : (m₁.attrs.filter (fun a => !managed s₁.table a.name)).Perm
+             (m₂.attrs.filter (fun a => !managed s₁.table a.name))) :
+    (step Quirks.spec W s₁ (getReq "/api/v1/model")).1 = ok (.model m₁) ∧
+    (step Quirks.spec W s₂ (getReq "/api/v1/model")).1 = ok (.model m₂) ∧
+    SameRepr m₁ m₂ := by
+  have sn₁ : s₁.snap = some m₁ := by rw [i₁.snap_eq]; exact h₁
+  have sn₂ : s₂.snap = some m₂ := by rw [i₂.snap_eq]; exact h₂
+  refine ⟨by simp [step, classifyPath, getReq, getModel, sn₁], by simp [step, classifyPath, getReq, getModel, sn₂], ?_⟩
+  have sh₁ := (i₁.shows m₁ h₁).1
+  have sh₂ := (i₂.shows m₂ h₂).1
+  rw [← htbl] at sh₂
+  exact sameRepr_of_shows sh₁ sh₂ hu hid hact huser
+
+/-- **Route independence of the whole /model document.**  Two engines that have been through ANY request histories
+(whole-table uploads, per-subcatchment updates, encoding patches, failed requests, null-valued and repeated attributes,
+anything) and end with the same scenario, id, action set, solution table and posted attributes serve the same /model
+document up to the order of the attribute entries. -/
+theorem route_independent_model (W : World) (rs₁ rs₂ : List Request) (m₁ m₂ : Mdl)
+    (h₁ : (exec Quirks.spec W State.init rs₁).live = some m₁)
+    (h₂ : (exec Quirks.spec W State.init rs₂).live = some m₂)
+    (hu : m₁.u = m₂.u) (hid : m₁.id = m₂.id) (hact : m₁.active = m₂.active)
+    (htbl : (exec Quirks.spec W State.init rs₁).table = (exec Quirks.spec W State.init rs₂).table)
+    (huser : (m₁.attrs.filter (fun a => !managed (exec Quirks.spec W State.init rs₁).table a.name)).Perm
+             (m₂.attrs.filter (fun a => !managed (exec Quirks.spec W State.init rs₁).table a.name))) :
+    (step Quirks.spec W (exec Quirks.spec W State.init rs₁) (getReq "/api/v1/model")).1 = ok (.model m₁) ∧
+    (step Quirks.spec W (exec Quirks.spec W State.init rs₂) (getReq "/api/v1/model")).1 = ok (.model m₂) ∧
+    SameRepr m₁ m₂ :=
+  model_representation_determined W _ _ m₁ m₂ (reachable_inv W rs₁) (reachable_inv W rs₂) h₁ h₂ hu hid hact htbl huser
+
+/-- In every reachable state no attribute name is listed twice in the /model document, and the managed names carry
+exactly the values of the model's own action set (`Shows`, in its `Value(name)` form). -/
+theorem model_attributes_unique (W : World) (rs : List Request) (m : Mdl)
+    (h : (exec Quirks.spec W State.init rs).live = some m) :
+    (names m.attrs).Nodup ∧
+    valueOf m.attrs "Encoding" = some (strTok (encodeStr m.active)) ∧
+    valueOf m.attrs "ValidAgainstScenario" = some (boolTok (W.valid m.u.key m.active)) ∧
+    (∀ t, (exec Quirks.spec W State.init rs).table = some t →
+      valueOf m.attrs "ParetoFrontMember" = some (boolTok (paretoHas t (encodeStr m.active)))) ∧
+    valueOf m.attrs "ValidationErrors" = (if W.valid m.u.key m.active then none else some veTok) :=
+  ((reachable_inv W rs).shows m h).1
 
 /-! ## Non-vacuity and sanity examples (tests, labelled as such) -/
 
@@ -399,6 +692,58 @@ example : (viaPatch.live.map (·.attrs)) = some
 example : ((exec Quirks.spec W s0 [patchReq [⟨"Encoding", "\"7\"", .text "7"⟩]]).live.map (·.attrs)) = some
     [⟨"ModelSuppliedPlanningUnitName", "\"SubCatchment\""⟩, ⟨"Encoding", "\"7\""⟩, ⟨"ValidAgainstScenario", "false"⟩,
      ⟨"ValidationErrors", "VE"⟩] := by decide
+/-! null-valued and repeated attributes: in the demanded behaviour a name is listed once, whatever the route -/
+
+def nullV : Request := patchReq [⟨"ValidAgainstScenario", "null", .notEncoding⟩]
+def sNull : State := exec Quirks.spec W s0 [nullV]
+def nullTable : State := exec Quirks.spec W sNull [putActiveReq table]
+def nullSubs : State := exec Quirks.spec W sNull
+  [ subReq "/api/v1/model/subcatchment/1" [⟨"GullyRestoration", .active⟩, ⟨"RiverBankRestoration", .inactive⟩],
+    subReq "/api/v1/model/subcatchment/2" [⟨"RiverBankRestoration", .active⟩] ]
+def nullPatch : State := exec Quirks.spec W sNull [patchReq [⟨"Encoding", "\"5\"", .text "5"⟩]]
+
+/-- after `PATCH [ValidAgainstScenario: null]` the three routes still end in the same state, with ONE verdict entry … -/
+example : nullTable = nullSubs ∧ nullSubs = nullPatch := by decide
+example : nullTable.live.map (·.attrs) = some
+    [⟨"ModelSuppliedPlanningUnitName", "\"SubCatchment\""⟩, ⟨"Encoding", "\"5\""⟩, ⟨"ValidAgainstScenario", "true"⟩] := by decide
+/-- … and re-PUTting the identical table changes nothing … -/
+example : exec Quirks.spec W nullTable [putActiveReq table] = nullTable := by decide
+/-- … whereas the code as it stands (quirk `nullShadow`) lists the verdict three times after the table route and four
+times after the two subcatchment PUTs: different /model documents for one action set -/
+example : (exec { nullShadow := true } W (exec { nullShadow := true } W s0 [nullV]) [putActiveReq table]).live.map (·.attrs) = some
+    [⟨"ModelSuppliedPlanningUnitName", "\"SubCatchment\""⟩, ⟨"Encoding", "\"5\""⟩, ⟨"ValidAgainstScenario", "null"⟩,
+     ⟨"ValidAgainstScenario", "true"⟩, ⟨"ValidAgainstScenario", "true"⟩] := by decide
+example : ((exec { nullShadow := true } W (exec { nullShadow := true } W s0 [nullV])
+      [ subReq "/api/v1/model/subcatchment/1" [⟨"GullyRestoration", .active⟩, ⟨"RiverBankRestoration", .inactive⟩],
+        subReq "/api/v1/model/subcatchment/2" [⟨"RiverBankRestoration", .active⟩] ]).live.map (fun m => m.attrs.length)) = some 6 := by
+  decide
+/-- a `ValidationErrors` posted as null, or twice in one PATCH, does not survive on a valid set -/
+example : (exec Quirks.spec W s0 [patchReq [⟨"ValidationErrors", "null", .notEncoding⟩]]).live.map (·.attrs) = s0.live.map (·.attrs) := by
+  decide
+example : (exec Quirks.spec W s0 [patchReq [⟨"ValidationErrors", "1", .notEncoding⟩, ⟨"ValidationErrors", "2", .notEncoding⟩]]).live.map (·.attrs) =
+    s0.live.map (·.attrs) := by decide
+example : ((exec { joinStale := true } W s0 [patchReq [⟨"ValidationErrors", "1", .notEncoding⟩, ⟨"ValidationErrors", "2", .notEncoding⟩]]).live.map
+    (fun m => valueOf m.attrs "ValidationErrors")) = some (some "1") := by decide
+/-- the hypotheses of `model_representation_determined` are satisfiable by genuinely different histories: two posted
+attributes in either order, the set reached by the table route / by two encoding patches: the attribute lists differ
+(in order), the posted parts are permutations of each other -/
+def hist₁ : State := exec Quirks.spec W s0
+  [patchReq [⟨"Note", "1", .notEncoding⟩], patchReq [⟨"Owner", "2", .notEncoding⟩], putActiveReq table]
+def hist₂ : State := exec Quirks.spec W s0
+  [patchReq [⟨"Encoding", "\"7\"", .text "7"⟩, ⟨"Owner", "2", .notEncoding⟩], patchReq [⟨"Encoding", "\"5\"", .text "5"⟩, ⟨"Note", "1", .notEncoding⟩]]
+example : hist₁.live.map (·.active) = hist₂.live.map (·.active) ∧ hist₁.live.map (·.attrs) ≠ hist₂.live.map (·.attrs) := by decide
+example : ∃ m₁ m₂, hist₁.live = some m₁ ∧ hist₂.live = some m₂ ∧
+    (m₁.attrs.filter (fun a => !managed hist₁.table a.name)).Perm (m₂.attrs.filter (fun a => !managed hist₁.table a.name)) :=
+  ⟨_, _, rfl, rfl, by decide⟩
+/-- accepted POST /solutions: the hypothesis of `solutions_text_verbatim` / a non-trivial `lastSolutionsText` -/
+def solCsv : Csv := .table ["Solution", "Actions", "Summary"] [[.text "As-Is", .text "0", .text "n"], [.text "1-of-1", .text "5", .text "n"]]
+def solReq : Request := { method := .post, path := "/api/v1/solutions", ctype := csvMime, text := [0x25, 0x73], facts := .csv solCsv }
+example : (step Quirks.spec W viaPatch solReq).1.status = 200 ∧
+    lastSolutionsText W viaPatch [solReq, postScenarioReq [] "T" u, patchReq []] = some [0x25, 0x73] := by decide
+example : ((exec Quirks.spec W viaPatch [solReq]).live.map (fun m => valueOf m.attrs "ParetoFrontMember")) = some (some "true") := by decide
+/-- `nextActive`: POST /solutions leaves the set, POST /scenario resets it -/
+example : nextActive W viaPatch solReq = some [true, false, true] ∧
+    nextActive W viaPatch (postScenarioReq [] "T" u) = some [false, false, false] := by decide
 /-- hypotheses of `route_independent` / `patch_canonical_encoding_reaches` are satisfiable -/
 example : Inv W s0 := inv_exec W _ _ (inv_init W)
 example : s0.live.isSome = true := by decide
